@@ -77,6 +77,27 @@ func Mutants(toks []Tok) []Mutant {
 			out = append(out, Mutant{"dup", "duplicate definition of " + toks[p[0]].Text, m, false})
 		}
 	}
+	// ... and a second, DIFFERENT definition of the same name placed at the very beginning and after the last lexical
+	// production (a later definition must not silently replace or be replaced by an earlier one)
+	ps := productions(toks)
+	lastLex := -1
+	for _, p := range ps {
+		if h := toks[p[0]].Kind; h == "tokId" || h == "regDefId" || h == "ignoredTokId" {
+			lastLex = p[1]
+		}
+	}
+	for _, p := range ps {
+		if h := toks[p[0]].Kind; h == "tokId" || h == "regDefId" || h == "ignoredTokId" {
+			other := []Tok{toks[p[0]], {":", ":"}, {"char_lit", "'z'"}, {"char_lit", "'q'"}, {";", ";"}}
+			m := append(cloneToks(other), toks...)
+			out = append(out, Mutant{"dup", "second definition of " + toks[p[0]].Text + " at the beginning", m, false})
+			if lastLex >= 0 && lastLex != p[1] {
+				m = append(cloneToks(toks[:lastLex+1]), other...)
+				m = append(m, toks[lastLex+1:]...)
+				out = append(out, Mutant{"dup", "second definition of " + toks[p[0]].Text + " after the last lexical production", m, false})
+			}
+		}
+	}
 	return out
 }
 
